@@ -7,14 +7,17 @@ import copy
 import time
 
 
-def _viol(summary, cls):
+def _viol(summary, cls, accept=None):
     for v in summary.get("violations", []):
-        if (v["prop"], v["oracle"]) == cls:
+        if (v["prop"], v["oracle"]) == cls and (accept is None or accept(v)):
             return v
     return None
 
 
-def minimise(spec, cls, execute, same_class, budget_s):
+def minimise(spec, cls, execute, same_class, budget_s, accept=None):
+    """accept(v): further condition on the violation that must persist (the runner passes "not a
+    listed known finding", so that minimising an unlisted violation can never end at a listed one
+    of the same oracle)."""
     t_end = time.time() + budget_s
     best = copy.deepcopy(spec)
     best_v = [None]
@@ -28,7 +31,7 @@ def minimise(spec, cls, execute, same_class, budget_s):
             return False
         if "harness_error" in s:
             return False
-        v = _viol(s, cls)
+        v = _viol(s, cls, accept)
         if v is not None:
             best_v[0] = v
             return True
